@@ -131,6 +131,32 @@ def compound_nodes_registered(ctx):
             ctx.check(f"assignment_expr[{op}]: operator node registered through add_op", ok, "add_op(<operator node>)", f"nodes={[n.cls for n in nodes]} registered={[getattr(a, 'cls', '?') for a in added]}", fn_where(idx, fi))
 
 
+def callbacks_hand_back_registered_effects(ctx):
+    """an effect that a transformer method hands back is declared only if it went through add_op (the holder is what both layouts print
+    from): no method returns a freshly constructed effect node as it is.  Empty is the exception - it declares nothing and prints as
+    EMPTY() wherever it is referenced."""
+    idx = get_index(ctx.env)
+    effects = set(idx.subclasses("Effect", strict=True)) - {"Empty"}
+    bad = []
+    n = 0
+    for q, fi in sorted(idx.funcs.items()):
+        if fi.cls != "RZILTransformer":
+            continue
+        try:
+            ps = paths_of(fi.node)
+        except Exception:
+            continue
+        for p in ps:
+            if p.outcome != "return" or p.value is None:
+                continue
+            n += 1
+            v = p.value
+            if isinstance(v, ast.Call) and isinstance(v.func, ast.Name) and v.func.id in effects:
+                bad.append(f"{q}: returns {U(v)[:50]} [{p.guard_text()[:60]}]")
+    ctx.check("no transformer method hands back an unregistered effect node", n >= 150 and not bad, "effects are returned as add_op(...) / chk_hybrid_dep(add_op(...)); only Empty may stay unregistered",
+              "; ".join(sorted(set(bad))[:3]) or f"{n} returning paths inspected", "rzilcompiler/Transformer/RZILTransformer.py")
+
+
 def add_op_registers_what_it_returns(ctx):
     """whatever add_op hands back is in the holder when it returns: either it was found there by name on this path, or this path put it
     there - an operand handed back unregistered (because it carries an id from an earlier registration that a folder has undone since)
@@ -154,6 +180,7 @@ def add_op_registers_what_it_returns(ctx):
 @rule("R11.2", "C11", "unique names: add_op suffixes a post-incremented id to everything not de-duplicated by name; every created node is registered", min_instances=12)
 def r11_2(ctx):
     add_op_registers_what_it_returns(ctx)
+    callbacks_hand_back_registered_effects(ctx)
     idx = get_index(ctx.env)
     fg = idx.func("ILOpsHolder.get_op_count")
     box = {}
@@ -413,6 +440,9 @@ def r11_6(ctx):
     from .c14 import r14_1
 
     r14_1(ctx)
+    from .c14 import r14_5
+
+    r14_5(ctx)  # every part of an instruction starts from an empty holder: what an earlier part declared is not declared again
 
 
 @rule("R11.7", "C11", "register operands are declared exactly when they are used as variables: the initialise table of the READ block and the read table agree for every access class", min_instances=7)
